@@ -41,7 +41,16 @@ def session(rng):
     for i in range(n):
         s.conn("c%d" % (i + 1), user=rng.choice([b"", b"u%d" % i]))
     subs = []
-    for _ in range(rng.choice([8, 20, 40])):
+    steps = rng.choice([8, 20, 40])
+    deafen_at = rng.randrange(steps) if n >= 2 and rng.randrange(3) == 0 else -1
+    for i in range(steps):
+        if i == deafen_at and subs and len(s.clients) >= 2:
+            # a subscriber whose socket starts failing: everybody else must still get every matching publish
+            victim = rng.choice([x[0] for x in subs if x[0] in s.clients] or s.clients)
+            s.deafen(victim)
+            for _ in range(rng.choice([2, 4, 6])):
+                ch = rng.choice(subs)[2].replace(b"+", rng.choice(WORDS))
+                s.pub(rng.choice(s.clients), "KA", ch, rbytes(rng, 2))
         c = rng.choice(s.clients)
         r = rng.randrange(20)
         if r < 6:
@@ -56,6 +65,8 @@ def session(rng):
         elif r < 9:
             if subs and rng.randrange(4):
                 c2, k, ch = rng.choice(subs)
+                if c2 not in s.clients:
+                    c2 = c
                 if rng.randrange(3) == 0:
                     ch = permuted(rng, ch)
                 s.unsub(c2 if rng.randrange(5) else c, k, ch)
